@@ -118,6 +118,8 @@ def plan(tier, seed, pid='C10', sym_only=False):
             q.group = 'sp_colorder n=5, concrete permutation, %s' % ('symmetric mode' if sym else 'column etree')
             q.witness = (k % 8 == 0)
             qs.append(q)
+    # longest queries first (same queries, only the start order): the n=3 column-etree and n=4 instances take 8-13 min each
+    qs.sort(key=lambda q: 0 if ('.colorder.n3.' in q.name and '.sym0.' in q.name) else 1 if '.colorder.n4.' in q.name else 2 if '.colorder.n3.' in q.name else 3)
     return qs
 
 META = {
